@@ -1081,7 +1081,7 @@ fn enumerate(args: &Args) -> Vec<CCase> {
     for s in subjects(th) {
         v.push(CCase::Hist { subj: s.clone(), depth: 2, cap: if th { 200 } else { 130 }, origin: 0 });
         // the same histories on a clone and on a deserialized copy (states the constructors do not produce directly)
-        for origin in [1u8, 2, 3] {
+        for origin in if th { vec![1u8, 2, 3] } else { vec![2u8, 3] } {
             v.push(CCase::Hist { subj: s.clone(), depth: if th { 2 } else { 1 }, cap: if th { 100 } else { 130 }, origin });
         }
         if th {
@@ -1091,6 +1091,9 @@ fn enumerate(args: &Args) -> Vec<CCase> {
         v.push(CCase::Sched { subj: s.clone(), threads: 3, per_thread: 2, batches: if th { 6 } else { 1 } });
         v.push(CCase::Stress { subj: s.clone(), threads: 8, rounds: if th { 40 } else { 8 } });
         for fresh in 0..4u8 {
+            if !th && fresh == 1 {
+                continue; // the clone() route only in the thorough tier (clone_from and the round trip stay)
+            }
             v.push(CCase::Preempt { subj: s.clone(), max_triples: if th { 1200 } else if fresh == 0 { 260 } else { 90 }, fresh });
         }
     }
